@@ -20,6 +20,11 @@
      the PRESENCE of its facet key ("file" / "folder" / neither) alone: the facet's content (empty
      object, childCount, mimeType, hashes, ...) and every optional member (size, webUrl, dates,
      downloadUrl, parentReference, listItem / fields) vary per item in the concretisation.
+     Names are arbitrary strings without "/" (the concretisation draws plain, non-ASCII and names
+     needing URL quoting: space # ? & ; = + and "%" followed by hex digits or not, with sibling
+     pairs that collide after one round of percent-decoding); the server decodes a request path
+     exactly ONCE.  Error payloads (HTTPError bodies, bodies of non-2xx answers) are arbitrary
+     bytes: empty, ASCII / UTF-8 JSON, ISO-8859-1 HTML, UTF-16 with BOM, invalid UTF-8, very long.
 
    CLIENT MODEL  one action per code step; pc:
      "idle" (no call running) -> StartCall -> "ready" (client code outside _send)
